@@ -133,6 +133,12 @@ v("break-c16-start-plus-one", "break", "C16", "LEX-WRITE", [(L, "\t// update the
 v("break-c16-errorf-no-truncate", "break", "C16", "LEX-ERR", [(L, "\tl.start = 0\n\tl.pos = 0\n\tl.input = l.input[:0]\n\treturn nil", "\treturn nil")])
 v("break-c16-double-backup", "break", "C16", "LEX-DEPTH", [(L, "\t\tdefault:\n\t\t\t// transition to being in a value\n\t\t\tl.backup()\n\t\t\treturn lexVal", "\t\tdefault:\n\t\t\t// transition to being in a value\n\t\t\tl.backup()\n\t\t\tl.backup()\n\t\t\treturn lexVal")])
 
+v("break-c03-ctor-range-swap", "break", "C03", "CTOR-SHAPE", [(E, "\t\t\tMin:       literalToExpr(right[0]),\n\t\t\tMax:       literalToExpr(right[1]),", "\t\t\tMin:       literalToExpr(right[1]),\n\t\t\tMax:       literalToExpr(right[0]),")])
+v("break-c03-and-chain-as-list", "break", "C03", "CTOR-SHAPE", [(R, "\tif in.Op == expr.Or {\n\t\tleft, ok := in.Left.(*expr.Expression)", "\tif in.Op == expr.Or || in.Op == expr.And {\n\t\tleft, ok := in.Left.(*expr.Expression)")])
+v("break-c06-like-for-any-op", "break", "C06", "CTOR-SHAPE", [(E, "\tif op == Equals && len(right) == 1 && shouldUseLikeOperator(right[0]) {", "\tif len(right) == 1 && shouldUseLikeOperator(right[0]) {")])
+v("break-c04-list-params-prepend", "break", "C04", "PH-LINEAR", [(B, "\t\t\tparams = append(params, eparams...)", "\t\t\tparams = append(eparams, params...)")])
+v("keep-wrapper-plain-field", "keep", "all", "", [(R, "return expr.Eq(expr.Column(field), lit)", "return expr.Eq(field, lit)")], "the general constructor wraps a string field of a column operator in a Column itself")
+
 def main():
     os.makedirs(OUT, exist_ok=True)
     for f in os.listdir(OUT):
